@@ -96,7 +96,10 @@ CLAIMED: dict[str, tuple[str, str, str, str]] = {
             "enumerates all 100+ (form, spelling, placement) cases; each is instantiated for 21 linter x language "
             "bases, the project is linted with all rules before and after, and IgnoreTrace.tla computes "
             "Expected(base, d) and judges the result (NotSilenced / OverSilenced / OtherChanged), cross-checked "
-            "with a Python mirror used only for diagnosis keys.",
+            "with a Python mirror used only for diagnosis keys. Comma lists (`ignore[a,b]`) are two further "
+            "spellings for same-line directives; every base is additionally edited in place through an alternating "
+            "sequence of file-level and line-level directives and linted again by the same process / one held "
+            "Linter, so nothing remembered per file may go stale.",
             "Comment style follows the file's language; lazy-ignores findings excluded; file-level findings do "
             "not shift; line-scoped forms are not generated for file-level linters nor inside DRY blocks; "
             "`prefix.*` for rule ids without a sub-id carries no verdict.",
@@ -113,12 +116,16 @@ CLAIMED: dict[str, tuple[str, str, str, str]] = {
             TECH),
     "C13": ("DESIGN.md §5 C13",
             "spec/Edits.tla enumerates edit sequences (blank/comment insertion at four positions, trailing "
-            "whitespace, re-indentation, CRLF, BOM, appended unrelated code; length <=2) and defines the shift "
+            "whitespace, re-indentation, CRLF, BOM, appended unrelated code, renaming of function-local identifiers; "
+            "length <=2 quick, <=3 thorough) and defines the shift "
             "function, whose monotonicity/boundedness/identity laws TLC checks over all concrete positions; every "
             "sequence is applied to 23 linter x language bases (incl. SRP size-boundary classes), all rules are "
             "linted before/after and EditsTrace.tla computes Expected(base, edits) (Lost / Gained / WrongShift / "
-            "CountChanged); a Python mirror is used for diagnosis keys only and cross-checked.",
-            "Identifier renaming is not modelled; probe files contain no multi-line strings; file-level findings "
+            "CountChanged); a Python mirror is used for diagnosis keys only and cross-checked. Every base is also edited "
+            "in place and re-linted by one process / one held Linter, once as is and once with an inline directive "
+            "in the file.",
+            "For renaming edits the findings of stringly-typed and dry (which look at names / statement text) are "
+            "left out; probe files contain no multi-line strings; file-level findings "
             "do not shift; header-sensitive linters get no insertion at the top.",
             TECH),
     "C11": ("DESIGN.md §5 C11",
@@ -126,7 +133,9 @@ CLAIMED: dict[str, tuple[str, str, str, str]] = {
             "<=3 thorough); the harness instantiates each with bytes/positions drawn from VERIF_SEED, places the "
             "damaged file among healthy siblings and runs Linter.lint (all rules, H1 failure tap on every "
             "swallowed exception) plus rotating CLI commands; RobustTrace.tla judges Hang / Crash / RuleFailed / "
-            "SiblingsChanged per run.",
+            "SiblingsChanged per run. A slow-parse stage appends a 10 000-character token flood to a healthy TS/JS file "
+            "(each tree-sitter parse then takes about a second): the findings of its healthy part and of the healthy "
+            "file linted after it must survive (AnalysisDropped).",
             "Fault enumeration, not exhaustive model checking of byte strings: concrete bytes are pseudo-random "
             "(recorded in the replay); hang = no result within 120 s; wall-clock dependent faults (parser "
             "timeouts) are only reachable in the thorough tier's larger blow-ups.",
@@ -150,7 +159,9 @@ CLAIMED: dict[str, tuple[str, str, str, str]] = {
             "express it (self-checked with ast / tree-sitter), 15 functions per file in rotating function forms "
             "with colliding method names, and linted with every limit 1..max+1 through config and --max-depth; "
             "NestingTrace.tla recomputes DepthOf and judges every file (DepthEq / FlagEq / HeaderLine); the "
-            "cross-language clause follows because the expectation has no language argument.",
+            "cross-language clause follows because the expectation has no language argument; mixed-language "
+            "directories (one file per language, a distinct limit per language through per-language overrides, one "
+            "run) are judged by the same trace specification.",
             "Bodies start with one plain statement; nested function definitions, lambdas, comprehensions and "
             "TS/Rust `else if` chains are not generated (undocumented); quick tier samples 4 500 functions per "
             "language, thorough runs all.",
@@ -164,7 +175,8 @@ CLAIMED: dict[str, tuple[str, str, str, str]] = {
             "checks the allowed_numbers delta law and exactly-once as properties of the model; the rendered "
             "universe (self-checked, literal-free scaffolding, non-literal probes) is linted under every "
             "configuration and MagicNumbersTrace.tla judges Missed / Spurious / Duplicate / WrongValue / "
-            "NonLiteralReported per item, cross-checked with a Python mirror for diagnosis.",
+            "NonLiteralReported per item, cross-checked with a Python mirror for diagnosis; mixed-language directories "
+            "give each language its own allowed_numbers / max_small_integer through per-language overrides in one run.",
             "Numeric identity across types (1_000_000 vs 1e6) and negative allowed entries are not exercised; "
             "Rust enum discriminants are not generated (not documented for Rust).",
             TECH),
